@@ -46,6 +46,25 @@ var hopKinds = []func() net.IP{
 
 var rttAlpha = []float64{0, 1e-9, 0.1, 1.5, 3, 1e6}
 
+// hopLists3 is the alphabet of the thorough tier's three-run product: every list of length <= 3 over the hop kinds WITHOUT
+// the last one ('::', covered by the one- and two-run products and by the quick tier's three-run product): the cube of the
+// full set is three times larger and does not fit the worker budget.
+func hopLists3() [][]int {
+	var out [][]int
+	for _, l := range hopLists(3) {
+		ok := true
+		for _, k := range l {
+			if k == len(hopKinds)-1 {
+				ok = false
+			}
+		}
+		if ok {
+			out = append(out, l)
+		}
+	}
+	return out
+}
+
 func hopLists(maxLen int) [][]int {
 	var out [][]int
 	var rec func(cur []int)
@@ -403,7 +422,7 @@ func chunks(tier string) []chunk {
 	}
 	l3 := len(hopLists(2))
 	if tier == "thorough" {
-		l3 = len(hopLists(3))
+		l3 = len(hopLists3())
 	}
 	n3 := l3 * l3 * l3
 	step := chunkSize
@@ -470,7 +489,7 @@ func run(tier string, idx int, r *core.ScnResult) {
 	l2 := hopLists(3)
 	l3 := hopLists(2)
 	if tier == "thorough" {
-		l3 = hopLists(3)
+		l3 = hopLists3()
 		if c.kind == "runs3" {
 			step = 8192
 		}
